@@ -1,6 +1,8 @@
 package main
 
 import (
+	"os"
+	"os/exec"
 	"bytes"
 	"encoding/json"
 	"fmt"
@@ -135,6 +137,41 @@ func sortStrings(a []string) {
 	}
 }
 
+// freshBaseline: the observations of one pipeline run alone in a FRESH process — the only baseline that a
+// leak through package-level state cannot have polluted.
+var freshCache = map[string]string{}
+
+func freshBaseline(j c11Job, rs c11Res) string {
+	in, _ := json.Marshal(map[string]interface{}{"job": j, "res": rs})
+	if v, ok := freshCache[string(in)]; ok {
+		return v
+	}
+	cmd := exec.Command(os.Args[0], "c11-job")
+	cmd.Stdin = bytes.NewReader(in)
+	cmd.Env = append(os.Environ(), "VERIF_WORKER=")
+	out, err := cmd.Output()
+	if err != nil {
+		panic("c11: fresh-process baseline failed: " + err.Error())
+	}
+	freshCache[string(in)] = string(out)
+	return string(out)
+}
+
+func init() {
+	if len(os.Args) > 1 && os.Args[1] == "c11-job" {
+		var req struct {
+			Job c11Job `json:"job"`
+			Res c11Res `json:"res"`
+		}
+		if json.NewDecoder(os.Stdin).Decode(&req) != nil {
+			os.Exit(2)
+		}
+		drive.SetBlockSize(smallBlock)
+		os.Stdout.WriteString(c11Pipeline(nil, req.Job, req.Res))
+		os.Exit(0)
+	}
+}
+
 type c11Scenario struct {
 	Name string   `json:"name"`
 	Jobs []c11Job `json:"jobs"`
@@ -152,6 +189,7 @@ var c11Scenarios = []c11Scenario{
 	{"7.2 against 7.4 on a flexible heredoc", []c11Job{{"<?php f(<<<A\n  x\n  A, 1);\n$b;", "7.2"}, {"<?php f(<<<A\n  x\n  A, 1);\n$b;", "7.4"}}, false},
 	{"the same namespace with different imports", []c11Job{{"<?php namespace N; use X\\Foo; use function X\\f; new Foo; f(); K;", "7.4"}, {"<?php namespace N; use Y\\Foo; use const Y\\K; new Foo; f(); K;", "7.4"}}, false},
 	{"words against punctuation in the printer", []c11Job{{"<?php echo new static instanceof self and print clone $a or exit;", "7.4"}, {"<?php [[$a[1]{2}]]=-+!~@$b[3]?->$c:(--$d)**++$e;", "7.4"}}, false},
+	{"braced global namespaces with and without imports", []c11Job{{"<?php namespace { use App\\Models\\User; use function App\\f; new User; f(); }", "7.4"}, {"<?php namespace { new User; f(); echo K; }", "7.4"}}, false},
 	{"scanner restarts: strings, comments, inline HTML", []c11Job{{"<html><?php /* c */ \"a $b[0] ${c}\"; // d\n?> x <?= $e ?>", "7.4"}, {"#!sh\n<?php `ls $a`; # h\n'q\\'r' . <<<'N'\nn\nN;\n", "5.6"}}, true},
 	{"scanner restarts: errors and recovery", []c11Job{{"<?php \x01 $a = 'x\n", "7.4"}, {"<?php /* open", "5.6"}}, true},
 }
@@ -200,9 +238,9 @@ func c11Explore(c *core.Ctx, sc c11Scenario, rs c11Res, bound int) {
 	base := make([]string, len(sc.Jobs))
 	for i, j := range sc.Jobs {
 		verifhook.Point, verifhook.Tick = nil, nil
-		base[i] = c11Pipeline(nil, j, rs)
+		base[i] = freshBaseline(j, rs)
 		if again := c11Pipeline(nil, j, rs); again != base[i] {
-			c.Report("two sequential runs of the same pipeline differ", mkWhat("%q under %s", j.Src, j.Ver), c11Case{"schedule", sc, rs, nil, bound})
+			c.Report("a pipeline run in this process differs from the same pipeline run alone in a fresh process", mkWhat("%q under %s: %s", j.Src, j.Ver, firstDiffStr(base[i], again)), c11Case{"schedule", sc, rs, nil, bound})
 		}
 	}
 	outs := make([]string, len(sc.Jobs))
@@ -296,6 +334,11 @@ var c11HistJobs = []c11Job{
 	{"<?php class { } function ( { $x = ; }", "7.4"}, {"<?php foreach ($a as &$k => $v) {} trait T extends B {}", "5.6"},
 	{"<?php namespace N; use A\\B; new B; /* open", "7.4"}, {"<html><?php if ($a): ?>x<?php endif; ?>\n", "5.3"},
 	{"<?php \x01 1 +", "7.0"}, {"", "7.4"},
+	// writers and readers of name-resolution state in every namespace form
+	{"<?php namespace { use App\\Models\\User; use function App\\f; use const App\\K; new User; }", "7.4"},
+	{"<?php namespace { new User; f(); echo K; }", "7.4"},
+	{"<?php namespace A { use B\\User; } namespace { new User; }", "5.6"},
+	{"<?php use X\\User; new User; f(); echo K;", "7.4"},
 }
 
 func c11Histories(c *core.Ctx) {
@@ -322,8 +365,7 @@ func c11Histories(c *core.Ctx) {
 		}
 		last := seq[len(seq)-1]
 		if !have[last] {
-			have[last], first[last] = true, out
-			continue
+			have[last], first[last] = true, freshBaseline(c11HistJobs[last], c11Full)
 		}
 		if out != first[last] {
 			var names []string
@@ -347,7 +389,7 @@ func c11Replay(c *core.Ctx, raw json.RawMessage) {
 	base := make([]string, len(sc.Jobs))
 	for i, j := range sc.Jobs {
 		verifhook.Point, verifhook.Tick = nil, nil
-		base[i] = c11Pipeline(nil, j, cs.Res)
+		base[i] = freshBaseline(j, cs.Res)
 	}
 	var first []string
 	for round := 0; round < 2; round++ {
@@ -378,8 +420,8 @@ func c11Replay(c *core.Ctx, raw json.RawMessage) {
 func init() {
 	register(&core.Check{
 		Prop: "C11", Level: "exploration", Exhaust: true, QuickSecs: 900, ThorSecs: 3600, OneProc: true,
-		Rule: "pipelines parse -> print -> dump(tokens+positions) -> traverse+resolve run as goroutines under a cooperative scheduler; a thread can be switched at every Parser.Lex call (overlay hook), every error callback, every Write of the printer and dumper, every EnterNode/LeaveNode of the resolver (and, in two scenarios, at every scanner restart). Depth-first enumeration of ALL schedules with <= 1 preemption over all of these points plus every scanner restart, and of ALL schedules with <= 2 preemptions over the coarser point set (Lex calls, error callbacks, every printer write, every 8th dumper write, EnterNode) (thorough: 3 longer pipelines, bound 3 on short programs, bound 2 over all points for four scenarios), for 12 two-pipeline scenarios chosen to collide on anything global (same family, both families, same text, heredoc labels, error path, 7.2 vs 7.4, resolver tables, printer state) and one three-pipeline scenario. " +
-			"Oracle: every observation of every pipeline (tree with tokens and positions, printed bytes, dump text, error list, sorted resolved names, input buffer) equals its sequential baseline in every schedule; two sequential runs agree. states = schedules executed, transitions = scheduling decisions taken; distinct outcome vectors per scenario must be 1. Plus sequential histories: every sequence of <= 3 pipelines over 14 programs (errors at the start/end of input, unterminated constructs, both families) — the last result must not depend on its predecessors. A free-running -race pass over the same pipelines complements this (sampling, never deciding).",
+		Rule: "pipelines parse -> print -> dump(tokens+positions) -> traverse+resolve run as goroutines under a cooperative scheduler; a thread can be switched at every Parser.Lex call (overlay hook), every error callback, every Write of the printer and dumper, every EnterNode/LeaveNode of the resolver (and, in two scenarios, at every scanner restart). Depth-first enumeration of ALL schedules with <= 1 preemption over all of these points plus every scanner restart, and of ALL schedules with <= 2 preemptions over the coarser point set (Lex calls, error callbacks, every printer write, every 8th dumper write, EnterNode) (thorough: 3 longer pipelines, bound 3 on short programs, bound 2 over all points for four scenarios), for 13 two-pipeline scenarios chosen to collide on anything global (same family, both families, same text, heredoc labels, error path, 7.2 vs 7.4, resolver tables, printer state) and one three-pipeline scenario. " +
+			"Oracle: every observation of every pipeline (tree with tokens and positions, printed bytes, dump text, error list, sorted resolved names, input buffer) equals its sequential baseline in every schedule; two sequential runs agree. states = schedules executed, transitions = scheduling decisions taken; distinct outcome vectors per scenario must be 1. Plus sequential histories: every sequence of <= 3 pipelines over 18 programs (errors at the start/end of input, unterminated constructs, both families) — the last result must equal the result of that pipeline alone in a fresh process. A free-running -race pass over the same pipelines complements this (sampling, never deciding).",
 		Assume: []string{"interference finer than the yield points is left to the race detector pass"},
 		Run:    c11Run,
 		Replay: c11Replay,
